@@ -563,6 +563,21 @@ impl Exec for VolExec {
                     let mut rd: &[u8] = &srcb;
                     res_unit(s.read_exact_volatile_from(g("addr"), &mut rd, g("count")))
                 }
+                ("read_cursor", Cur::Mem(Src::Slice(s))) => {
+                    let srcb = bytes("src");
+                    let mut rd = std::io::Cursor::new(&srcb[..]);
+                    rd.set_position(line["a"]["pos"].as_u64().expect("harness: pos"));
+                    match s.read_volatile_from(g("addr"), &mut rd, g("count")) {
+                        Ok(n) => json!({"k": "ok", "n": n}),
+                        Err(e) => verr(&e),
+                    }
+                }
+                ("read_exact_cursor", Cur::Mem(Src::Slice(s))) => {
+                    let srcb = bytes("src");
+                    let mut rd = std::io::Cursor::new(&srcb[..]);
+                    rd.set_position(line["a"]["pos"].as_u64().expect("harness: pos"));
+                    res_unit(s.read_exact_volatile_from(g("addr"), &mut rd, g("count")))
+                }
                 ("write_volatile_to", Cur::Mem(Src::Slice(s))) => {
                     let mut sink: Vec<u8> = Vec::new();
                     match s.write_volatile_to(g("addr"), &mut sink, g("count")) {
